@@ -182,7 +182,9 @@ def check_parse(ctx, case, workdir):
     skip = case.get("skip", 0)
     with open(path, "wb") as f:
         # `skip` record-header bytes before every packet, stripped by --skip-header-bytes
-        f.write(b"".join(bytes([0x1A, 0xCF, 0xFC, 0x1D, 0, 0, 0, i & 0xFF][:skip]) + p for i, p in enumerate(pkts)) + tail)
+        # (a truncated trailing record keeps its record header too: the cut is inside the packet)
+        f.write(b"".join(bytes([0x1A, 0xCF, 0xFC, 0x1D, 0, 0, 0, i & 0xFF][:skip]) + p for i, p in enumerate(pkts)) +
+                (bytes([0x1A, 0xCF, 0xFC, 0x1D, 0, 0, 0, 0xEE][:skip]) + tail if tail else b""))
     with open(xpath, "w") as f:
         f.write(xtce_text(case["extra"]))
     size = os.path.getsize(path)
